@@ -169,6 +169,10 @@ def inject(src, spec):
         lo, hi = find_function(m, fn)
         loops = find_loops(m, lo, hi)
         want = fs.get("nloops")
+        if want and len(loops) == 0:
+            # the function has become loop-free: nothing to close, its obligations are checked directly
+            report.append({"function": fn, "loop": None, "kind": "vanished", "clauses": 0})
+            continue
         if want is not None and want != len(loops):
             raise InjectError("function %s: expected %d loops, found %d" % (fn, want, len(loops)))
         for key, clauses in fs.items():
